@@ -136,6 +136,9 @@ pub struct GenOpts {
     pub max_targets: usize,
     pub allow_dups: bool,
     pub allow_odd: bool,
+    /// target paths written with one trailing slash ("core/" names the directory core), referred to
+    /// by `uses` / `ignores` entries in both spellings
+    pub allow_slash: bool,
 }
 
 pub fn config(rng: &mut Rng, o: &GenOpts) -> ConfigCase {
@@ -157,11 +160,30 @@ pub fn config(rng: &mut Rng, o: &GenOpts) -> ConfigCase {
             _ => format!("{}/", paths[i]),
         };
     }
+    // which targets are declared with a trailing slash; everything that refers to them is built
+    // from the plain spelling (and sometimes the slashed one)
+    let mut slashed: Vec<bool> = paths.iter().map(|_| false).collect();
+    if o.allow_slash && rng.chance(1, 5) {
+        for _ in 0..rng.range(1, 2) {
+            let i = rng.below(paths.len());
+            if !paths[i].ends_with('/') && !paths[i].contains("//") {
+                slashed[i] = true;
+            }
+        }
+    }
     let mut targets = vec![];
-    for p in &paths {
+    for (pi, p) in paths.iter().enumerate() {
         let nu = match rng.below(10) { 0..=4 => 0, 5..=7 => 1, 8 => 2, _ => 3 };
         let ni = match rng.below(10) { 0..=5 => 0, 6..=8 => 1, _ => 2 };
-        let uses = (0..nu).map(|_| related_path(rng, &paths)).collect();
+        let uses = (0..nu)
+            .map(|_| {
+                let u = related_path(rng, &paths);
+                match paths.iter().position(|q| *q == u) {
+                    Some(k) if slashed[k] && rng.chance(1, 3) => format!("{}/", u),
+                    _ => u,
+                }
+            })
+            .collect();
         let ignores = (0..ni)
             .map(|_| {
                 if rng.chance(2, 3) {
@@ -176,7 +198,8 @@ pub fn config(rng: &mut Rng, o: &GenOpts) -> ConfigCase {
                 }
             })
             .collect();
-        targets.push(TargetSpec { path: p.clone(), uses, ignores });
+        let path = if slashed[pi] { format!("{}/", p) } else { p.clone() };
+        targets.push(TargetSpec { path, uses, ignores });
     }
     rng.shuffle(&mut targets);
     ConfigCase { targets }
